@@ -29,6 +29,25 @@ REAL_POOLS = [
 ]
 
 
+def run_group(cmd, timeout):
+    """run pdsh in its own process group; on timeout kill the whole group (pdsh + its exec children)"""
+    import signal
+    p = subprocess.Popen(cmd, stdout=subprocess.PIPE, stderr=subprocess.PIPE, start_new_session=True)
+    try:
+        so, se = p.communicate(timeout=timeout)
+        return p.returncode, so, se
+    except subprocess.TimeoutExpired:
+        try:
+            os.killpg(p.pid, signal.SIGKILL)
+        except OSError:
+            pass
+        try:
+            p.communicate(timeout=10)
+        except Exception:
+            pass
+        return -999, b"", b"TIMEOUT"
+
+
 def parse_shuffle(out, seqs):
     """is `out` an interleaving of the record sequences `seqs` with every record contiguous?"""
     n = len(seqs)
@@ -155,11 +174,7 @@ def run_real(ctx, prop, cov, dist):
         if optK:
             cmd.append("-K")
         cmd += [writer, d, "%h"]
-        try:
-            p = subprocess.run(cmd, stdout=subprocess.PIPE, stderr=subprocess.PIPE, timeout=120)
-            rc, so, se = p.returncode, p.stdout, p.stderr
-        except subprocess.TimeoutExpired:
-            rc, so, se = -999, b"", b"TIMEOUT"
+        rc, so, se = run_group(cmd, 40 if ctx.quick() else 120)
         real["runs"] += 1
         real["hosts"] += k
         real["bytes"] += len(so) + len(se)
@@ -171,7 +186,11 @@ def run_real(ctx, prop, cov, dist):
                              for h, (o, e) in list(payloads.items())[:8]},
                 "pdsh_stdout_head": so[:400].decode("latin-1"), "pdsh_stderr_head": se[:400].decode("latin-1"), "rc": rc}
         if rc != 0:
-            ctx.offender("crash" if rc != -999 else "timeout", "real pdsh run exits %d: %s" % (rc, se[-300:]), case)
+            ctx.offender("crash" if rc != -999 else "timeout",
+                         "real pdsh run %s: %s" % ("does not end" if rc == -999 else "exits %d" % rc, se[-300:]), case)
+            real["failed_runs"] = real.get("failed_runs", 0) + 1
+            if real["failed_runs"] >= 2:
+                break           # every hanging run costs its whole timeout
             continue
 
         class C:   # minimal view for relay.py_label
